@@ -314,7 +314,7 @@ class PB(ExprBuilder):
             fn = "sum"
         if fn == "take" and len(args) == 2 and (not kw or kw.get("axis") == num(0)):
             return ('call', 'getitem', (args[0], _canon_index(args[1])))
-        if fn == "where" and len(args) == 3 and args[1] == ('sym', 'True') and args[2] == ('sym', 'False'):
+        if fn == "where" and len(args) == 3 and args[1] in (('sym', 'True'), num(1)) and args[2] in (('sym', 'False'), num(0)) and _is_boolean_expr(args[0]):
             return args[0]
         if fn == "compress" and len(args) == 2 and not kw:
             return ('call', 'getitem', (args[1], _canon_index(args[0])))
